@@ -550,8 +550,10 @@ func (sc *serverConn) handleRequestStream(st *stream) error {
 		},
 	}
 	defer rw.close()
-	if reqInfo.NeedsContinue {
-		req.Body.(*bodyReader).send100Continue = func() {
+	// A request with "Expect: 100-continue" but no body (http.NoBody)
+	// has nothing to continue.
+	if br, ok := req.Body.(*bodyReader); ok && reqInfo.NeedsContinue {
+		br.send100Continue = func() {
 			rw.WriteHeader(100)
 		}
 	}
